@@ -348,13 +348,18 @@ func (c *Collection) itemSlice(readConfig *ReadRequest) []idItem {
 }
 
 func (c *Collection) genID() (string, error) {
-	return GenerateUniqueId(c.rng, func(candidate string) bool {
+	id, err := GenerateUniqueId(c.rng, func(candidate string) bool {
 		if c.idInterceptor != nil {
 			candidate = c.idInterceptor(candidate)
 		}
 		_, exists := c.byId[candidate]
 		return exists
 	})
+	if err == nil && c.idInterceptor != nil {
+		// the item must be stored under, and the caller told, the id that Get, Update, and Delete will look for
+		id = c.idInterceptor(id)
+	}
+	return id, err
 }
 
 type item struct {
